@@ -1,1 +1,735 @@
-pub fn witnesses() -> Vec<crate::W> { vec![] }
+//! C02 witnesses: "firing order and rule attributes are honoured on every run".  Wire into main.rs with `mod c02;` +
+//! `all.extend(c02::witnesses());`  (agenda_mgr.rs holds two fixed C02 histories; the searches here are independent of it).
+//!
+//! Reference (written from the statement): one pass visits the rules in descending salience, ties in the order the rules were
+//! added; a rule fires when it is enabled, its agenda group (MAIN when it names none) is the focused group at that moment, the
+//! evaluation time lies in [date_effective, date_expires), it is not a no-loop rule that fired since the last reset of the
+//! tracking, no rule of its activation group fired earlier in this pass, it is not a lock-on-active rule that fired since the
+//! last activation (set focus / ActivateAgendaGroup) of its group, and its condition holds.  set focus moves the group to the
+//! top of the focus stack, pop returns to the group below (no-op on a single group), clear returns to MAIN; an
+//! ActivateAgendaGroup action sets the focus when it runs.  A call makes passes until one fires nothing or max_cycles is reached.
+//! The firing sequence is observed through a custom `mark` action (first action of every rule) and, for
+//! execute_with_callback, through the callback.
+use rust_rule_engine::{ActionType, Condition, ConditionGroup, EngineConfig, Facts, KnowledgeBase, Operator, Rule, RustRuleEngine, Value};
+use std::collections::{BTreeMap, BTreeSet, HashMap};
+use std::sync::{Arc, Mutex};
+
+fn guarded(secs: u64, f: fn(&Arc<Mutex<String>>) -> (bool, String)) -> (bool, String) {
+    let progress = Arc::new(Mutex::new(String::new()));
+    let p2 = progress.clone();
+    let (tx, rx) = std::sync::mpsc::channel();
+    std::thread::spawn(move || {
+        let r = std::panic::catch_unwind(std::panic::AssertUnwindSafe(|| f(&p2)));
+        let _ = tx.send(r);
+    });
+    match rx.recv_timeout(std::time::Duration::from_secs(secs)) {
+        Ok(Ok(r)) => r,
+        Ok(Err(_)) => (true, format!("panicked while processing: {}", progress.lock().map(|s| s.clone()).unwrap_or_default())),
+        Err(_) => (true, format!("did not return within {} s while processing: {}", secs, progress.lock().map(|s| s.clone()).unwrap_or_default())),
+    }
+}
+
+// ------------------------------------------------------------------------------------------------------------------------
+// rule descriptions shared by the reference and the real engine
+// ------------------------------------------------------------------------------------------------------------------------
+#[derive(Clone, Debug)]
+enum AM {
+    Set(&'static str, bool),
+    Activate(&'static str),
+}
+
+/// times are nanoseconds of the day 2030-01-01 (UTC)
+#[derive(Clone, Debug)]
+struct RM {
+    name: String,
+    sal: i32,
+    enabled: bool,
+    no_loop: bool,
+    lock: bool,
+    agenda: Option<&'static str>,
+    act: Option<&'static str>,
+    eff: Option<u64>,
+    exp: Option<u64>,
+    cond: Option<&'static str>, // a boolean fact that must be true; None = always true
+    actions: Vec<AM>,
+}
+fn rm(name: &str, sal: i32) -> RM {
+    RM { name: name.to_string(), sal, enabled: true, no_loop: false, lock: false, agenda: None, act: None, eff: None, exp: None, cond: None, actions: vec![] }
+}
+impl RM {
+    fn no_loop(mut self) -> Self {
+        self.no_loop = true;
+        self
+    }
+    fn lock(mut self) -> Self {
+        self.lock = true;
+        self
+    }
+    fn agenda(mut self, g: &'static str) -> Self {
+        self.agenda = Some(g);
+        self
+    }
+    fn act(mut self, g: &'static str) -> Self {
+        self.act = Some(g);
+        self
+    }
+    fn cond(mut self, c: &'static str) -> Self {
+        self.cond = Some(c);
+        self
+    }
+    fn disabled(mut self) -> Self {
+        self.enabled = false;
+        self
+    }
+    fn dates(mut self, eff: Option<u64>, exp: Option<u64>) -> Self {
+        self.eff = eff;
+        self.exp = exp;
+        self
+    }
+    fn does(mut self, a: Vec<AM>) -> Self {
+        self.actions = a;
+        self
+    }
+    fn group(&self) -> String {
+        self.agenda.unwrap_or("MAIN").to_string()
+    }
+    fn describe(&self) -> String {
+        let mut s = format!("{}(salience {}", self.name, self.sal);
+        if !self.enabled {
+            s.push_str(", disabled");
+        }
+        if self.no_loop {
+            s.push_str(", no-loop");
+        }
+        if self.lock {
+            s.push_str(", lock-on-active");
+        }
+        if let Some(g) = self.agenda {
+            s.push_str(&format!(", agenda-group {}", g));
+        }
+        if let Some(g) = self.act {
+            s.push_str(&format!(", activation-group {}", g));
+        }
+        if let Some(t) = self.eff {
+            s.push_str(&format!(", effective {}", stamp(t)));
+        }
+        if let Some(t) = self.exp {
+            s.push_str(&format!(", expires {}", stamp(t)));
+        }
+        s.push_str(&format!(", when {}", self.cond.map(|c| format!("{} == true", c)).unwrap_or("true".into())));
+        if !self.actions.is_empty() {
+            s.push_str(&format!(", then {:?}", self.actions));
+        }
+        s.push(')');
+        s
+    }
+}
+fn describe_rules(rs: &[RM]) -> String {
+    rs.iter().map(|r| r.describe()).collect::<Vec<_>>().join(" ")
+}
+
+fn stamp(ns_of_day: u64) -> String {
+    let secs = ns_of_day / 1_000_000_000;
+    let ns = ns_of_day % 1_000_000_000;
+    format!("2030-01-01T{:02}:{:02}:{:02}.{:09}Z", secs / 3600, (secs / 60) % 60, secs % 60, ns)
+}
+
+fn to_rule(r: &RM) -> Rule {
+    let cond = match r.cond {
+        Some(c) => Condition::new(c.to_string(), Operator::Equal, Value::Boolean(true)),
+        None => Condition::new("go".to_string(), Operator::Equal, Value::Boolean(true)),
+    };
+    let mut params = HashMap::new();
+    params.insert("rule".to_string(), Value::String(r.name.clone()));
+    let mut actions = vec![ActionType::Custom { action_type: "mark".to_string(), params }];
+    for a in &r.actions {
+        actions.push(match a {
+            AM::Set(k, v) => ActionType::Set { field: k.to_string(), value: Value::Boolean(*v) },
+            AM::Activate(g) => ActionType::ActivateAgendaGroup { group: g.to_string() },
+        });
+    }
+    let mut rule = Rule::new(r.name.clone(), ConditionGroup::single(cond), actions).with_salience(r.sal).with_no_loop(r.no_loop).with_lock_on_active(r.lock);
+    rule.enabled = r.enabled;
+    if let Some(g) = r.agenda {
+        rule = rule.with_agenda_group(g.to_string());
+    }
+    if let Some(g) = r.act {
+        rule = rule.with_activation_group(g.to_string());
+    }
+    if let Some(t) = r.eff {
+        rule = rule.with_date_effective_str(&stamp(t)).unwrap();
+    }
+    if let Some(t) = r.exp {
+        rule = rule.with_date_expires_str(&stamp(t)).unwrap();
+    }
+    rule
+}
+
+// ------------------------------------------------------------------------------------------------------------------------
+// the reference
+// ------------------------------------------------------------------------------------------------------------------------
+#[derive(Clone)]
+struct Model {
+    rules: Vec<RM>, // in the order they were added
+    focus: Vec<String>,
+    locked: BTreeSet<(String, String)>, // (group, rule): fired since the last activation of the group
+    fired_no_loop: BTreeSet<String>,
+    flags: BTreeMap<String, bool>,
+    max_cycles: usize,
+}
+impl Model {
+    fn new(rules: &[RM], flags: &[(&str, bool)], max_cycles: usize) -> Model {
+        Model {
+            rules: rules.to_vec(),
+            focus: vec!["MAIN".to_string()],
+            locked: BTreeSet::new(),
+            fired_no_loop: BTreeSet::new(),
+            flags: flags.iter().map(|(k, v)| (k.to_string(), *v)).collect(),
+            max_cycles,
+        }
+    }
+    fn focused(&self) -> String {
+        self.focus.last().unwrap().clone()
+    }
+    fn set_focus(&mut self, g: &str) {
+        self.focus.retain(|x| x != g);
+        self.focus.push(g.to_string());
+        let g = g.to_string();
+        self.locked.retain(|(gr, _)| *gr != g);
+    }
+    fn pop(&mut self) {
+        if self.focus.len() > 1 {
+            self.focus.pop();
+        }
+    }
+    fn clear(&mut self) {
+        self.focus = vec!["MAIN".to_string()];
+    }
+    fn exec(&mut self, t: u64) -> Vec<String> {
+        let mut fired = vec![];
+        for _pass in 0..self.max_cycles {
+            let mut any = false;
+            let mut groups_fired: BTreeSet<String> = BTreeSet::new();
+            // descending salience, ties in insertion order
+            let mut order: Vec<usize> = (0..self.rules.len()).collect();
+            order.sort_by(|a, b| self.rules[*b].sal.cmp(&self.rules[*a].sal).then(a.cmp(b)));
+            for k in order {
+                let r = self.rules[k].clone();
+                if !r.enabled || r.group() != self.focused() {
+                    continue;
+                }
+                if r.eff.map(|e| t < e).unwrap_or(false) || r.exp.map(|e| t >= e).unwrap_or(false) {
+                    continue;
+                }
+                if r.lock && self.locked.contains(&(r.group(), r.name.clone())) {
+                    continue;
+                }
+                if r.act.map(|g| groups_fired.contains(g)).unwrap_or(false) {
+                    continue;
+                }
+                if r.no_loop && self.fired_no_loop.contains(&r.name) {
+                    continue;
+                }
+                if !r.cond.map(|c| *self.flags.get(c).unwrap_or(&false)).unwrap_or(true) {
+                    continue;
+                }
+                for a in &r.actions {
+                    match a {
+                        AM::Set(k, v) => {
+                            self.flags.insert(k.to_string(), *v);
+                        }
+                        AM::Activate(g) => self.set_focus(g),
+                    }
+                }
+                fired.push(r.name.clone());
+                any = true;
+                if r.no_loop {
+                    self.fired_no_loop.insert(r.name.clone());
+                }
+                if r.lock {
+                    self.locked.insert((r.group(), r.name.clone()));
+                }
+                if let Some(g) = r.act {
+                    groups_fired.insert(g.to_string());
+                }
+            }
+            if !any {
+                break;
+            }
+        }
+        fired
+    }
+}
+
+// ------------------------------------------------------------------------------------------------------------------------
+// the real engine
+// ------------------------------------------------------------------------------------------------------------------------
+struct Rig {
+    engine: RustRuleEngine,
+    facts: Facts,
+    log: Arc<Mutex<Vec<String>>>,
+}
+fn rig(rules: &[RM], flags: &[(&str, bool)], max_cycles: usize) -> Rig {
+    let kb = KnowledgeBase::new("c02");
+    for r in rules {
+        kb.add_rule(to_rule(r)).unwrap();
+    }
+    let mut engine = RustRuleEngine::with_config(kb, EngineConfig { max_cycles, timeout: None, enable_stats: false, debug_mode: false });
+    let log: Arc<Mutex<Vec<String>>> = Arc::new(Mutex::new(vec![]));
+    let l2 = log.clone();
+    engine.register_action_handler("mark", move |params, _| {
+        if let Some(Value::String(n)) = params.get("rule") {
+            l2.lock().unwrap().push(n.clone());
+        }
+        Ok(())
+    });
+    let facts = Facts::new();
+    facts.set("go", Value::Boolean(true));
+    for (k, v) in flags {
+        facts.set(k, Value::Boolean(*v));
+    }
+    Rig { engine, facts, log }
+}
+impl Rig {
+    /// one execute call; `callback` selects execute_with_callback (evaluation time = now) instead of execute_at_time(t)
+    fn exec(&mut self, t: u64, callback: bool) -> Result<Vec<String>, String> {
+        self.log.lock().unwrap().clear();
+        if callback {
+            let cb: Arc<Mutex<Vec<String>>> = Arc::new(Mutex::new(vec![]));
+            let c2 = cb.clone();
+            let res = self.engine.execute_with_callback(&self.facts, move |n, _| c2.lock().unwrap().push(n.to_string()));
+            let res = res.map_err(|e| format!("execute_with_callback returned Err({})", e))?;
+            let marks = self.log.lock().unwrap().clone();
+            let cbs = cb.lock().unwrap().clone();
+            if marks != cbs {
+                return Err(format!("the callback saw {:?} but the rules' actions ran in the order {:?}", cbs, marks));
+            }
+            if res.rules_fired != cbs.len() {
+                return Err(format!("rules_fired = {} but the callback was called {} times", res.rules_fired, cbs.len()));
+            }
+            Ok(cbs)
+        } else {
+            let when = Rule::new("t".into(), ConditionGroup::single(Condition::new("go".into(), Operator::Equal, Value::Boolean(true))), vec![])
+                .with_date_effective_str(&stamp(t))
+                .unwrap()
+                .date_effective
+                .unwrap();
+            let res = self.engine.execute_at_time(&self.facts, when).map_err(|e| format!("execute_at_time returned Err({})", e))?;
+            let marks = self.log.lock().unwrap().clone();
+            if res.rules_fired != marks.len() {
+                return Err(format!("rules_fired = {} but {} rules ran their actions", res.rules_fired, marks.len()));
+            }
+            Ok(marks)
+        }
+    }
+}
+
+const NOON: u64 = 12 * 3600 * 1_000_000_000;
+
+// ------------------------------------------------------------------------------------------------------------------------
+// W1: salience order, ties, negatives, late additions, removal and re-addition, disabled rules
+// ------------------------------------------------------------------------------------------------------------------------
+struct Lcg(u64);
+impl Lcg {
+    fn next(&mut self, n: usize) -> usize {
+        self.0 = self.0.wrapping_mul(6364136223846793005).wrapping_add(1442695040888963407);
+        ((self.0 >> 33) as usize) % n
+    }
+}
+
+fn c02_salience_order_search_inner(progress: &Arc<Mutex<String>>) -> (bool, String) {
+    let mut tried = 0;
+    for seed in 0..40u64 {
+        let mut g = Lcg(seed * 7919 + 13);
+        let n = 22 + (seed as usize % 4) * 9; // 22, 31, 40, 49 rules
+        let levels: Vec<i32> = match seed % 3 {
+            0 => vec![-7, 0, 3],                  // heavy ties
+            1 => vec![-100, -1, 0, 1, 5, 5, 1000], // (5 twice: more weight)
+            _ => vec![i32::MIN, -2, -1, 0, 1, 2, i32::MAX],
+        };
+        let mut rules: Vec<RM> = vec![];
+        for k in 0..n {
+            let sal = levels[g.next(levels.len())];
+            let mut r = rm(&format!("r{:02}", k), sal).no_loop();
+            if g.next(6) == 0 {
+                r = r.disabled();
+            }
+            rules.push(r);
+        }
+        // rules added after the engine exists: a high-salience one, a tie with the most common level, a low one
+        let late = vec![rm("late_hi", *levels.iter().max().unwrap()).no_loop(), rm("late_tie", levels[1]).no_loop(), rm("late_lo", *levels.iter().min().unwrap()).no_loop()];
+        for callback in [false, true] {
+            *progress.lock().unwrap() = format!("seed {} ({} rules)", seed, n);
+            tried += 1;
+            let mut model = Model::new(&rules, &[], 2);
+            let mut real = rig(&rules, &[], 2);
+            let mut history = format!("add {}", describe_rules(&rules));
+            macro_rules! step_exec {
+                () => {{
+                    let want = model.exec(NOON);
+                    history.push_str("; execute");
+                    match real.exec(NOON, callback) {
+                        Err(e) => return (true, format!("{}: {}", history, e)),
+                        Ok(got) => {
+                            if got != want {
+                                return (true, format!("{} [{}]: fired {:?}, expected {:?}", history, if callback { "execute_with_callback" } else { "execute_at_time" }, got, want));
+                            }
+                        }
+                    }
+                }};
+            }
+            step_exec!();
+            // late additions, then everything may fire again
+            for r in &late {
+                real.engine.knowledge_base().add_rule(to_rule(r)).unwrap();
+                model.rules.push(r.clone());
+                history.push_str(&format!("; add {}", r.describe()));
+            }
+            real.engine.reset_no_loop_tracking();
+            model.fired_no_loop.clear();
+            history.push_str("; reset_no_loop_tracking");
+            step_exec!();
+            // remove a rule from the middle of a tie and add it again: it now comes last among its equals
+            let victim = g.next(n);
+            let vname = rules[victim].name.clone();
+            real.engine.knowledge_base().remove_rule(&vname).unwrap();
+            real.engine.knowledge_base().add_rule(to_rule(&rules[victim])).unwrap();
+            let pos = model.rules.iter().position(|r| r.name == vname).unwrap();
+            let moved = model.rules.remove(pos);
+            model.rules.push(moved);
+            history.push_str(&format!("; remove_rule({}); add it again", vname));
+            // flip the enable flag of three rules
+            for _ in 0..3 {
+                let k = g.next(n);
+                let name = rules[k].name.clone();
+                let m = model.rules.iter_mut().find(|r| r.name == name).unwrap();
+                m.enabled = !m.enabled;
+                real.engine.knowledge_base().set_rule_enabled(&name, m.enabled).unwrap();
+                history.push_str(&format!("; set_rule_enabled({}, {})", name, m.enabled));
+            }
+            real.engine.reset_no_loop_tracking();
+            model.fired_no_loop.clear();
+            history.push_str("; reset_no_loop_tracking");
+            step_exec!();
+            // without a reset nothing fires again (every rule is no-loop)
+            step_exec!();
+        }
+    }
+    (false, format!("{} rule sets of 22..49 no-loop rules with tied / negative / extreme saliences in shuffled insertion order, some disabled; histories: execute, 3 late additions, reset, execute, remove+re-add, enable flips, reset, execute, execute; both execute_at_time and execute_with_callback", tried))
+}
+fn c02_salience_order_search() -> (bool, String) {
+    guarded(60, c02_salience_order_search_inner)
+}
+
+// ------------------------------------------------------------------------------------------------------------------------
+// W2: date windows, evaluation exactly at and next to the bounds
+// ------------------------------------------------------------------------------------------------------------------------
+fn c02_date_window_search_inner(progress: &Arc<Mutex<String>>) -> (bool, String) {
+    let s = 1_000_000_000u64;
+    let bounds = [None, Some(100 * s), Some(200 * s), Some(300 * s)];
+    let mut rules = vec![];
+    for (a, eff) in bounds.iter().enumerate() {
+        for (b, exp) in bounds.iter().enumerate() {
+            // salience unrelated to the window so that the expected sequence is not in insertion order
+            rules.push(rm(&format!("w{}{}", a, b), ((a * 5 + b * 3) % 4) as i32 - 1).dates(*eff, *exp));
+        }
+    }
+    let mut times = vec![0u64, 86_399 * s];
+    for b in [100 * s, 200 * s, 300 * s] {
+        times.extend([b - s, b - 1_000_000, b - 1, b, b + 1, b + 1_000_000, b + s]);
+    }
+    let mut tried = 0;
+    for t in &times {
+        *progress.lock().unwrap() = format!("t = {}", stamp(*t));
+        tried += 1;
+        let mut model = Model::new(&rules, &[], 1);
+        let mut real = rig(&rules, &[], 1);
+        let want = model.exec(*t);
+        match real.exec(*t, false) {
+            Err(e) => return (true, format!("rules {}; execute_at_time({}): {}", describe_rules(&rules), stamp(*t), e)),
+            Ok(got) => {
+                if got != want {
+                    let diff: Vec<&String> = got.iter().filter(|x| !want.contains(x)).chain(want.iter().filter(|x| !got.contains(x))).collect();
+                    let about: Vec<String> = rules.iter().filter(|r| diff.contains(&&r.name)).map(|r| r.describe()).collect();
+                    return (true, format!("16 rules with every combination of effective/expiry in {{none, +100 s, +200 s, +300 s}}; one pass of execute_at_time({}): fired {:?}, expected {:?}; differing rules: {}", stamp(*t), got, want, about.join(" ")));
+                }
+            }
+        }
+    }
+    // wall-clock route (execute / execute_with_callback evaluate at `now`): windows that are decades away from any plausible now
+    let far = |name: &str, eff: Option<&str>, exp: Option<&str>, sal: i32| -> Rule {
+        let mut r = to_rule(&rm(name, sal));
+        if let Some(e) = eff {
+            r = r.with_date_effective_str(e).unwrap();
+        }
+        if let Some(e) = exp {
+            r = r.with_date_expires_str(e).unwrap();
+        }
+        r
+    };
+    for callback in [false, true] {
+        tried += 1;
+        let mut real = rig(&[], &[], 1);
+        let kb = real.engine.knowledge_base();
+        kb.add_rule(far("expired", Some("2000-01-01T00:00:00Z"), Some("2001-01-01T00:00:00Z"), 5)).unwrap();
+        kb.add_rule(far("current", Some("2000-01-01T00:00:00Z"), Some("2200-01-01T00:00:00Z"), 1)).unwrap();
+        kb.add_rule(far("future", Some("2150-01-01T00:00:00Z"), Some("2200-01-01T00:00:00Z"), 4)).unwrap();
+        kb.add_rule(far("open_end", Some("2000-01-01T00:00:00Z"), None, 3)).unwrap();
+        kb.add_rule(far("open_start_expired", None, Some("2001-01-01T00:00:00Z"), 2)).unwrap();
+        kb.add_rule(far("open_start", None, Some("2200-01-01T00:00:00Z"), 0)).unwrap();
+        let got = if callback {
+            real.exec(0, true)
+        } else {
+            real.log.lock().unwrap().clear();
+            match real.engine.execute(&real.facts) {
+                Ok(_) => Ok(real.log.lock().unwrap().clone()),
+                Err(e) => Err(e.to_string()),
+            }
+        };
+        let want: Vec<String> = ["open_end", "current", "open_start"].iter().map(|x| x.to_string()).collect();
+        match got {
+            Err(e) => return (true, format!("rules with windows 2000..2001, 2000..2200, 2150..2200, 2000.., ..2001, ..2200 evaluated now: {}", e)),
+            Ok(got) => {
+                if got != want {
+                    return (true, format!("rules expired(2000..2001, salience 5) current(2000..2200, 1) future(2150..2200, 4) open_end(2000.., 3) open_start_expired(..2001, 2) open_start(..2200, 0), {}: fired {:?}, expected {:?}", if callback { "execute_with_callback" } else { "execute" }, got, want));
+                }
+            }
+        }
+    }
+    (false, format!("{} evaluation times (at, 1 ns / 1 ms / 1 s before and after each bound) against 16 effective/expiry combinations; plus far-past / far-future windows through execute and execute_with_callback", tried))
+}
+fn c02_date_window_search() -> (bool, String) {
+    guarded(60, c02_date_window_search_inner)
+}
+
+// ------------------------------------------------------------------------------------------------------------------------
+// W3: focus histories, lock-on-active, ActivateAgendaGroup actions, activation groups, no-loop across calls
+// ------------------------------------------------------------------------------------------------------------------------
+#[derive(Clone, Copy, Debug)]
+enum Op {
+    Exec,
+    Focus(&'static str),
+    Pop,
+    Clear,
+    Reset,
+    Api(&'static str), // RustRuleEngine::activate_agenda_group
+    Enable(&'static str, bool),
+    Flag(&'static str, bool),
+}
+
+fn rule_set_a() -> Vec<RM> {
+    vec![
+        rm("G4", 1).agenda("G").act("ag"),
+        rm("H2", -1).agenda("H").lock().does(vec![AM::Activate("MAIN")]),
+        rm("M3", -2),
+        rm("ML", 7).lock().does(vec![AM::Activate("H")]),
+        rm("M2", 7).lock(),
+        rm("G1", 3).agenda("G").lock(),
+        rm("G2", 3).agenda("G").no_loop().act("ag").cond("a").does(vec![AM::Set("x", true)]),
+        rm("D1", 20).disabled(),
+        rm("G3", 8).agenda("G").act("ag").cond("x").does(vec![AM::Set("x", false)]),
+        rm("H1", 0).agenda("H").no_loop().does(vec![AM::Set("a", true)]),
+        rm("M1", 10).no_loop().does(vec![AM::Activate("G")]),
+    ]
+}
+/// no rule brings the focus back by itself: it returns by pop / clear / set focus only
+fn rule_set_b() -> Vec<RM> {
+    vec![
+        rm("ML", 4).lock().does(vec![AM::Activate("H")]),
+        rm("M2", 4).lock(),
+        rm("M0", 9).no_loop().cond("x"),
+        rm("H1", 2).agenda("H").lock().does(vec![AM::Set("x", true)]),
+        rm("H2", 2).agenda("H").no_loop().act("ag"),
+        rm("H3", 2).agenda("H").act("ag"),
+        rm("G1", 0).agenda("G").lock().does(vec![AM::Activate("H")]),
+        rm("G2", -3).agenda("G").no_loop(),
+        rm("D1", 4).disabled().lock(),
+    ]
+}
+
+fn run_history(rules: &[RM], flags: &[(&str, bool)], ops: &[Op], callback: bool) -> Option<String> {
+    let mut model = Model::new(rules, flags, 3);
+    let mut real = rig(rules, flags, 3);
+    let mut hist = String::new();
+    for (k, op) in ops.iter().enumerate() {
+        hist.push_str(&format!("{}{:?}", if k == 0 { "" } else { "; " }, op));
+        match *op {
+            Op::Exec => {
+                let want = model.exec(NOON);
+                match real.exec(NOON, callback) {
+                    Err(e) => return Some(format!("history [{}]: {}", hist, e)),
+                    Ok(got) => {
+                        if got != want {
+                            return Some(format!("history [{}] (max_cycles 3, {}): the last execute fired {:?}, expected {:?}", hist, if callback { "execute_with_callback" } else { "execute_at_time" }, got, want));
+                        }
+                    }
+                }
+            }
+            Op::Focus(g) => {
+                real.engine.set_agenda_focus(g);
+                model.set_focus(g);
+            }
+            Op::Pop => {
+                real.engine.pop_agenda_focus();
+                model.pop();
+            }
+            Op::Clear => {
+                real.engine.clear_agenda_focus();
+                model.clear();
+            }
+            Op::Reset => {
+                real.engine.reset_no_loop_tracking();
+                model.fired_no_loop.clear();
+            }
+            Op::Api(g) => {
+                real.engine.activate_agenda_group(g.to_string());
+                model.set_focus(g);
+            }
+            Op::Enable(n, e) => {
+                real.engine.knowledge_base().set_rule_enabled(n, e).unwrap();
+                model.rules.iter_mut().find(|r| r.name == n).unwrap().enabled = e;
+            }
+            Op::Flag(kf, v) => {
+                real.facts.set(kf, Value::Boolean(v));
+                model.flags.insert(kf.to_string(), v);
+            }
+        }
+        let focus = real.engine.get_active_agenda_group().to_string();
+        if focus != model.focused() {
+            return Some(format!("history [{}]: focused agenda group = {}, expected {}", hist, focus, model.focused()));
+        }
+    }
+    None
+}
+
+fn focus_search(rules: Vec<RM>, label: &str, progress: &Arc<Mutex<String>>) -> (bool, String) {
+    let menu = [Op::Exec, Op::Focus("G"), Op::Focus("H"), Op::Focus("MAIN"), Op::Pop, Op::Clear, Op::Reset, Op::Api("G"), Op::Enable("D1", true), Op::Flag("x", true)];
+    let flags = [("a", false), ("x", false)];
+    let mut tried = 0u64;
+    let mut stack: std::collections::VecDeque<Vec<Op>> = vec![vec![]].into(); // breadth first: shortest histories first
+    while let Some(sq) = stack.pop_front() {
+        // every history ends with an execute so that its effect is observed
+        let mut ops = sq.clone();
+        ops.push(Op::Exec);
+        *progress.lock().unwrap() = format!("{} {:?}", label, ops);
+        tried += 1;
+        if let Some(bad) = run_history(&rules, &flags, &ops, false) {
+            return (true, format!("rules (in insertion order) {}; facts a=false x=false; {}", describe_rules(&rules), bad));
+        }
+        if sq.len() <= 2 {
+            tried += 1;
+            if let Some(bad) = run_history(&rules, &flags, &ops, true) {
+                return (true, format!("rules (in insertion order) {}; facts a=false x=false; {}", describe_rules(&rules), bad));
+            }
+        }
+        if sq.len() < 4 {
+            for op in menu.iter() {
+                let mut n = sq.clone();
+                n.push(*op);
+                stack.push_back(n);
+            }
+        }
+    }
+    (false, format!("{} histories of <= 4 operations from {{execute, set focus G/H/MAIN, pop, clear, reset no-loop, activate_agenda_group(G), enable D1, x := true}} + a final execute, on rule set {} ({} rules: agenda groups MAIN/G/H, lock-on-active, ActivateAgendaGroup actions, an activation group, no-loop)", tried, label, rules.len()))
+}
+fn c02_focus_history_search_a_inner(progress: &Arc<Mutex<String>>) -> (bool, String) {
+    focus_search(rule_set_a(), "A", progress)
+}
+fn c02_focus_history_search_b_inner(progress: &Arc<Mutex<String>>) -> (bool, String) {
+    focus_search(rule_set_b(), "B", progress)
+}
+fn c02_focus_history_search_a() -> (bool, String) {
+    guarded(120, c02_focus_history_search_a_inner)
+}
+fn c02_focus_history_search_b() -> (bool, String) {
+    guarded(120, c02_focus_history_search_b_inner)
+}
+
+// ------------------------------------------------------------------------------------------------------------------------
+// W4: activation groups: per pass only the highest-salience rule of a group whose condition holds fires
+// ------------------------------------------------------------------------------------------------------------------------
+fn c02_activation_group_search_inner(progress: &Arc<Mutex<String>>) -> (bool, String) {
+    let flags_names = ["c0", "c1", "c2", "c3"];
+    let orders: [[usize; 5]; 3] = [[0, 1, 2, 3, 4], [3, 4, 1, 0, 2], [2, 0, 4, 3, 1]];
+    let mut tried = 0u64;
+    for sal_bits in 0..81usize {
+        // salience of the four group rules from {-1, 0, 2}
+        let sal: Vec<i32> = (0..4).map(|k| [-1, 0, 2][(sal_bits / 3usize.pow(k as u32)) % 3]).collect();
+        for cond_bits in 0..16usize {
+            for (oi, order) in orders.iter().enumerate() {
+                if oi > 0 && (sal_bits + cond_bits) % 3 != 0 {
+                    continue;
+                }
+                let mut base: Vec<RM> = (0..4).map(|k| rm(&format!("a{}", k), sal[k]).act(if k == 3 && sal_bits % 2 == 1 { "other" } else { "ag" }).cond(flags_names[k])).collect();
+                // a rule outside every group, tied with salience 0; when it fires it makes a0's condition true for the next pass
+                base.push(rm("free", 0).does(vec![AM::Set("c0", true)]));
+                let rules: Vec<RM> = order.iter().map(|k| base[*k].clone()).collect();
+                let flags: Vec<(&str, bool)> = (0..4).map(|k| (flags_names[k], (cond_bits >> k) & 1 == 1)).collect();
+                *progress.lock().unwrap() = format!("{} flags {:?}", describe_rules(&rules), flags);
+                tried += 1;
+                let mut model = Model::new(&rules, &flags, 2);
+                let mut real = rig(&rules, &flags, 2);
+                let want = model.exec(NOON);
+                match real.exec(NOON, tried % 2 == 0) {
+                    Err(e) => return (true, format!("rules {}; facts {:?}; one execute, max_cycles 2: {}", describe_rules(&rules), flags, e)),
+                    Ok(got) => {
+                        if got != want {
+                            return (true, format!("rules (in insertion order) {}; facts {:?}; one execute, max_cycles 2: fired {:?}, expected {:?}", describe_rules(&rules), flags, got, want));
+                        }
+                    }
+                }
+            }
+        }
+    }
+    (false, format!("{} rule sets: 4 rules of one or two activation groups with saliences from {{-1,0,2}} (all assignments), every truth assignment of their conditions, a free rule that enables a0 for the second pass, three insertion orders; 2 passes", tried))
+}
+fn c02_activation_group_search() -> (bool, String) {
+    guarded(60, c02_activation_group_search_inner)
+}
+
+// ------------------------------------------------------------------------------------------------------------------------
+// W5: no-loop across several execute calls and reset_no_loop_tracking
+// ------------------------------------------------------------------------------------------------------------------------
+fn c02_no_loop_history_search_inner(progress: &Arc<Mutex<String>>) -> (bool, String) {
+    let rules = vec![
+        rm("plain", 0).cond("p").does(vec![AM::Set("p", false)]),
+        rm("once_a", 2).no_loop().cond("a").does(vec![AM::Set("p", true)]),
+        rm("once_b", 2).no_loop().does(vec![AM::Set("a", true)]),
+        rm("once_c", -1).no_loop().cond("p"),
+    ];
+    let menu = [Op::Exec, Op::Reset, Op::Flag("a", false), Op::Flag("p", true), Op::Enable("once_b", false), Op::Enable("once_b", true)];
+    let flags = [("a", false), ("p", false)];
+    let mut tried = 0u64;
+    let mut stack: std::collections::VecDeque<Vec<Op>> = vec![vec![]].into(); // breadth first: shortest histories first
+    while let Some(sq) = stack.pop_front() {
+        let mut ops = sq.clone();
+        ops.push(Op::Exec);
+        *progress.lock().unwrap() = format!("{:?}", ops);
+        tried += 1;
+        if let Some(bad) = run_history(&rules, &flags, &ops, tried % 3 == 0) {
+            return (true, format!("rules (in insertion order) {}; facts a=false p=false; {}", describe_rules(&rules), bad));
+        }
+        if sq.len() < 5 {
+            for op in menu.iter() {
+                let mut n = sq.clone();
+                n.push(*op);
+                stack.push_back(n);
+            }
+        }
+    }
+    (false, format!("{} histories of <= 5 operations from {{execute, reset_no_loop_tracking, a := false, p := true, disable/enable once_b}} + a final execute on 3 no-loop rules and a plain one that trigger each other", tried))
+}
+fn c02_no_loop_history_search() -> (bool, String) {
+    guarded(60, c02_no_loop_history_search_inner)
+}
+
+pub fn witnesses() -> Vec<crate::W> {
+    vec![
+        ("c02_salience_order_search", c02_salience_order_search),
+        ("c02_date_window_search", c02_date_window_search),
+        ("c02_focus_history_search_a", c02_focus_history_search_a),
+        ("c02_focus_history_search_b", c02_focus_history_search_b),
+        ("c02_activation_group_search", c02_activation_group_search),
+        ("c02_no_loop_history_search", c02_no_loop_history_search),
+    ]
+}
